@@ -82,7 +82,7 @@ def rewrite_error_new(text, needle):
     return "".join(out), n
 
 
-def build(extra_rewrites=None, lock_overlay=False, buffer_min=None, quiet=True):
+def build(extra_rewrites=None, lock_overlay=False, buffer_min=None, quiet=True, for_replay=False):
     """Returns (scratch_root, crate_dir, info dict)."""
     root = tempfile.mkdtemp(prefix="verif-scratch-", dir=os.environ.get("VERIF_TMP", "/tmp"))
     crate = os.path.join(root, "crate")
@@ -201,7 +201,9 @@ def build(extra_rewrites=None, lock_overlay=False, buffer_min=None, quiet=True):
             text = open(p).read()
             if text.count(old) < 1:
                 raise Inconclusive("%s: lock import line not found" % rel)
-            open(p, "w").write(text.replace(old, new, 1))  # first occurrence: the module's own import (a second one may sit in its #[cfg(test)] mod)
+            # first occurrence = the module's own import; for a native replay build also the one of
+            # its #[cfg(test)] mod, because `cargo kani playback` compiles the crate's unit tests
+            open(p, "w").write(text.replace(old, new) if for_replay else text.replace(old, new, 1))
             n += 1
         info["rewrites"]["std::sync::RwLock->instrumented lock"] = n
     for (rel, old, new, count) in (extra_rewrites or []):
